@@ -2,14 +2,15 @@
 # usage: run_seeds_wt.sh [seed ...]   like run_seeds.sh, but never touches /repo: every stored seeded change is applied in ONE scratch
 # worktree (/tmp/seedwt/all, created here and removed at the end) and the property's check runs against it through VERIF_REPO
 # (evidence of such runs goes to _scratch_evidence/).
-cd /verif
-WT=/tmp/seedwt/all
+cd "$(dirname "$0")/.."
+ROOT=$(pwd)
+WT=/tmp/seedwt/all$$
 mkdir -p /tmp/seedwt
 git -C /repo worktree add -q --detach $WT HEAD || exit 2
 SEEDS=${@:-$(ls seeded)}
 for s in $SEEDS; do
   prop=$(python3 -c "import json;print(json.load(open('seeded/$s/meta.json'))['breaks_property'])")
-  if ! git -C $WT apply /verif/seeded/$s/patch.diff 2>/dev/null; then echo "$s ($prop): PATCH-DOES-NOT-APPLY"; continue; fi
+  if ! git -C $WT apply $ROOT/seeded/$s/patch.diff 2>/dev/null; then echo "$s ($prop): PATCH-DOES-NOT-APPLY"; continue; fi
   out=$(VERIF_REPO=$WT timeout 1200 ./check $prop 2>&1); rc=$?
   git -C $WT checkout -q -- . ; git -C $WT clean -fdq src
   v=$(echo "$out" | grep -c '^VIOLATION')
